@@ -130,6 +130,18 @@ def gen_cases(rng, tier):
     cases.append(dict(base, n=32, npol=2, ypow=0.5, L=80.0, gamma=1.25, P=0.1, phi=4e-3, alpha=0.1, b2=3.0, b3=0.05, lead0=0, seed=12))
     if tier != "quick":
         cases.append(dict(base, n=32, L=100.0, gamma=1.0, P=0.1, phi=1e-3, alpha=0.0, b2=-2.0, lead0=0, seed=13))      # ~10000 steps
+    # lossy spans walked in a few LONG adaptive steps: with alpha near the top of the range and a first step of 4..15 km the peak
+    # power falls by more than 3x within one step, so consecutive steps grow by large factors (a limiter on the growth of the
+    # step, or any bookkeeping that assumes slowly varying steps, only bites here: seeded change C08-r8m1)
+    for i in range(4 if tier == "quick" else 16):
+        phi = rng.choice([0.1, 0.1, 0.08, 0.05])
+        gamma = rng.uniform(0.5, 3.0)
+        h0 = rng.uniform(4.0, 15.0)
+        npol = 1 + i % 2
+        cases.append(dict(base, n=rng.choice([32, 48, 64]), npol=npol, ypow=rng.choice([0.3, 1.0]) if npol == 2 else 0.0,
+                          L=rng.uniform(60.0, 100.0), gamma=gamma, P=phi / (gamma * h0), phi=phi, alpha=rng.uniform(0.3, 0.5),
+                          b2=rng.uniform(-25, 25), b3=rng.choice([0.0, rng.uniform(-0.2, 0.2)]), lead0=0,
+                          shape=rng.choice(["pulses", "random", "nrz"]), seed=rng.getrandbits(32), directed="lossy-long-steps"))
     rng.shuffle(cases)
     return cases
 
